@@ -20,6 +20,8 @@ type verifWorld struct {
 	commitSeq map[string][]int64
 	pool      pool
 	capacity  int
+
+	splitParent map[int64]bool // offsets of events the split action made parents
 }
 
 // input plugin stub: the commit notifications are where C01/C02 are asserted
@@ -30,7 +32,7 @@ type verifInput struct {
 }
 
 func (in *verifInput) Start(AnyConfig, *InputPluginParams) {}
-func (in *verifInput) Stop()                                {}
+func (in *verifInput) Stop()                               {}
 func (in *verifInput) PassEvent(*Event) bool {
 	// an input may recognise a record as already committed (after a restart) and refuse it
 	if in.refuse && vf.Choose("input-refuses", 2) == 1 {
@@ -44,7 +46,7 @@ func (in *verifInput) Commit(e *Event) {
 	off := e.Offset
 	st := w.streamOf[off]
 	// C01: acknowledged by the output, and nothing earlier of the same stream is unfinished
-	if !e.IsChildParentKind() { // the parent of a split is not sent itself; its children are
+	if !w.splitParent[off] { // the parent of a split is not sent itself; its children are
 		vf.Assert(w.acked[off], "committed-event-was-acknowledged")
 	}
 	for _, o := range w.order {
@@ -72,8 +74,8 @@ func (in *verifInput) Commit(e *Event) {
 type verifOutput struct{ b *Batcher }
 
 func (o *verifOutput) Start(AnyConfig, *OutputPluginParams) {}
-func (o *verifOutput) Stop()                                 {}
-func (o *verifOutput) Out(e *Event)                          { o.b.Add(e) }
+func (o *verifOutput) Stop()                                {}
+func (o *verifOutput) Out(e *Event)                         { o.b.Add(e) }
 
 // first action: pass or discard, decided per event (symbolic content of the event would decide it)
 type verifFilter struct {
@@ -82,7 +84,7 @@ type verifFilter struct {
 }
 
 func (a *verifFilter) Start(AnyConfig, *ActionPluginParams) {}
-func (a *verifFilter) Stop()                                 {}
+func (a *verifFilter) Stop()                                {}
 func (a *verifFilter) Do(e *Event) ActionResult {
 	if e.IsTimeoutKind() {
 		// only the multi-line actions understand time-out events (their Root is nil): every other
@@ -105,7 +107,7 @@ type verifJoiner struct {
 }
 
 func (a *verifJoiner) Start(_ AnyConfig, p *ActionPluginParams) { a.ctl = p.Controller }
-func (a *verifJoiner) Stop()                                     {}
+func (a *verifJoiner) Stop()                                    {}
 func (a *verifJoiner) flush() {
 	e := a.held
 	a.held = nil
@@ -144,7 +146,7 @@ type verifSplitter struct {
 }
 
 func (a *verifSplitter) Start(_ AnyConfig, p *ActionPluginParams) { a.ctl = p.Controller }
-func (a *verifSplitter) Stop()                                     {}
+func (a *verifSplitter) Stop()                                    {}
 func (a *verifSplitter) Do(e *Event) ActionResult {
 	if e.IsTimeoutKind() {
 		return ActionDiscard
@@ -156,6 +158,10 @@ func (a *verifSplitter) Do(e *Event) ActionResult {
 	if items == nil || !items.IsArray() {
 		return ActionPass
 	}
+	if a.w.splitParent == nil {
+		a.w.splitParent = map[int64]bool{}
+	}
+	a.w.splitParent[e.Offset] = true // known from the scenario, not from the event's kind field
 	a.ctl.Spawn(e, items.AsArray())
 	return ActionBreak
 }
